@@ -266,6 +266,29 @@ def wide_leg(ctx, binp, n):
     ctx.extra["wide_cases"] = len(rows)
 
 
+REGRESS = os.path.join(ROOT, "corpus", "c26", "regress.jsonl")
+
+
+def regress_leg(ctx, binp):
+    """pinned regression corpus (runs first, every seed and tier): small programs, one or two per mechanism that a
+    past change of the tree broke; same oracle as the generated programs (interp = bash on stdout and status)."""
+    try:
+        items = [json.loads(l) for l in open(REGRESS) if l.strip().startswith("{")]
+    except (OSError, ValueError) as ex:
+        ctx.broken.append(("corpus", "corpus/c26/regress.jsonl unreadable: %s" % ex))
+        return
+    res = run_sources(ctx, binp, [it["src"] for it in items], "regress")
+    if res is None:
+        return
+    for it, (g, b) in zip(items, res):
+        ctx.count(1, [it["src"]])
+        if g.get("hang") or g.get("panic") or g.get("status", -1) < 0 or b.get("status", -1) < 0 or differs(g, b):
+            ctx.fail("stdout_status_equal_bash(pinned:%s)" % it.get("id", ""), {"src": it["src"]}, it.get("class"),
+                     {"go": [bytes.fromhex(g.get("out") or "").decode("latin1")[:300], g.get("status")],
+                      "bash": [bytes.fromhex(b.get("out") or "").decode("latin1")[:300], b.get("status")]})
+    ctx.extra["regress_programs"] = len(items)
+
+
 VERDICTS = os.path.join(ROOT, "corpus", "c26", "verdicts.json")
 
 
@@ -317,6 +340,7 @@ def run(ctx):
                 "if-elif-else/while/until (unary guard, <= 3 rounds)/for/case/functions (no recursion)/return/break n/"
                 "continue n/exit n/set -e/+e/unknown commands; every 10th program may use the constructs of the known "
                 "classes (break 0, return outside a function, bad arguments); non-trivial = distinct source > 40 bytes")
+    regress_leg(ctx, binp)
     core_legs(ctx, binp, 250 if quick else 4000)
     witness_leg(ctx, binp)
     wide_leg(ctx, binp, 200 if quick else 3000)
